@@ -15,7 +15,7 @@ for i in ids:
             "quick_cmd": "./bin/gocv check --property %s --tier quick" % i,
             "thorough_cmd": "./bin/gocv check --property %s --tier thorough" % i,
             "evidence_file": "/verif/evidence/%s.json" % i,
-            "replay_cmd_template": "cat {path}   # the replay file names the failed obligation, carries the solver output and, where a harness exists, the go test command that reproduces the failing input on /repo",
+            "replay_cmd_template": "./bin/gocv replay --file {path}   # prints the replay file (failed obligation, solver output, SMT file, harness log) and re-runs the registered go-test harness for that obligation on /repo (exit 1 if it reproduces a failing input)",
             "engine": "gocv",
             "level_claimed": {"category": "proof", "text": p["text"], "design_ref": p.get("design_ref", "DESIGN.md §3 " + i)},
             "level_note": p["note"],
